@@ -465,6 +465,12 @@ func runC11(o *Out, rng *RNG, tier string, replay string) {
 		o.AddCase(fmt.Sprintf("CSeq11 %s %s %s %s", r.coqHist(), r.coqObs(), r.coqErrs(), r.coqLog()), r.desc(), "seq:"+r.key(), returned > 0)
 	}
 
+	nRecheck := 400
+	if thorough {
+		nRecheck = 6000
+	}
+	c11WaitRecheck(o, rng, nRecheck)
+
 	nConc := 1500
 	if thorough {
 		nConc = 40000
